@@ -191,13 +191,14 @@ class SSeq:
 
 class SArr:
     """Symbolic-length list backed by an SMT array Int->T plus a length (for index-heavy loops)."""
-    __slots__ = ('arr', 'n', 'elem', 'arr2')
+    __slots__ = ('arr', 'n', 'elem', 'arr2', 'src')
 
     def __init__(self, arr, n, elem, arr2=None):
         self.arr = arr
         self.n = n
         self.elem = elem
         self.arr2 = arr2       # for elem 'dt': arr = ordinals, arr2 = seconds of day
+        self.src = None
 
     def __repr__(self):
         return f'SArr<{self.elem} n={self.n}>'
